@@ -353,9 +353,9 @@ Proof.
 Qed.
 
 (* an accepted configuration is a valid parameter record of the interleaving model *)
-Lemma constructor_ok_valid initGo queueSize opts i c m q rn rd fa fb base :
+Lemma constructor_ok_valid initGo queueSize opts i c m q rn rd fa fb base fc :
   pool_new initGo queueSize opts = CtOk i c m q rn rd -> 0 < rd ->
-  pvalid (mkPar i c m q rn rd fa fb base).
+  pvalid (mkPar i c m q rn rd fa fb base fc).
 Proof.
   intros H Hrd. destruct (constructor_rejects_lemma initGo queueSize opts) as [_ Hk].
   destruct (Hk _ _ _ _ _ _ H) as (-> & -> & _ & _ & _ & H1 & H2 & H3 & H4).
